@@ -13,8 +13,25 @@ type STok struct {
 }
 
 type SpecErr struct {
-	Lo, Hi int // the error position must lie within [Lo, Hi]
+	Lo, Hi int // region of the first offending lexeme/token (a scan from the left reports this one)
 	Msg    string
+	// Also lists the regions of every other token that is offending in its own right (an undeclared name, an option
+	// after --, the first syntax error among the tokens before a lexical error): an implementation that validates in
+	// another order may legitimately point at one of those.
+	Also [][2]int
+}
+
+// Admits reports whether pos points at an offending token.
+func (e *SpecErr) Admits(pos int) bool {
+	if pos >= e.Lo && pos <= e.Hi {
+		return true
+	}
+	for _, r := range e.Also {
+		if pos >= r[0] && pos <= r[1] {
+			return true
+		}
+	}
+	return false
 }
 
 var (
@@ -52,14 +69,14 @@ func SpecTokenize(s string) ([]STok, *SpecErr) {
 			if len(rest) > 1 && rest[1] == '.' {
 				n = 2
 			}
-			return nil, &SpecErr{pos, pos + n, "bad dots"}
+			return out, &SpecErr{Lo: pos, Hi: pos + n, Msg: "bad dots"}
 		case '=':
 			if m := reValue.FindString(rest); m != "" {
 				out = append(out, STok{"Value", m, pos})
 				pos += len(m)
 				continue
 			}
-			return nil, &SpecErr{pos, len(s), "bad value annotation"}
+			return out, &SpecErr{Lo: pos, Hi: len(s), Msg: "bad value annotation"}
 		case '-':
 			if m := reLong.FindString(rest); m != "" {
 				out = append(out, STok{"Long", m, pos})
@@ -74,21 +91,21 @@ func SpecTokenize(s string) ([]STok, *SpecErr) {
 				out = append(out, STok{typ, m, pos})
 				pos += len(m)
 				if pos < len(s) && s[pos] == '-' {
-					return nil, &SpecErr{pos - len(m), pos + 1, "dash glued to option"}
+					return out, &SpecErr{Lo: pos - len(m), Hi: pos + 1, Msg: "dash glued to option"}
 				}
 				continue
 			}
 			if len(rest) >= 2 && rest[1] == '-' {
 				// "--" not followed by a long name
 				if len(rest) >= 3 && rest[2] == '-' {
-					return nil, &SpecErr{pos, pos + 3, "---"}
+					return out, &SpecErr{Lo: pos, Hi: pos + 3, Msg: "---"}
 				}
 				out = append(out, STok{"DD", "--", pos})
 				pos += 2
 				continue
 			}
 			// dangling dash
-			return nil, &SpecErr{pos, pos + 1, "dangling dash"}
+			return out, &SpecErr{Lo: pos, Hi: pos + 1, Msg: "dangling dash"}
 		}
 		if m := reArg.FindString(rest); m != "" {
 			typ := "Arg"
@@ -99,7 +116,7 @@ func SpecTokenize(s string) ([]STok, *SpecErr) {
 			pos += len(m)
 			continue
 		}
-		return nil, &SpecErr{pos, pos + 1, "unexpected character"}
+		return out, &SpecErr{Lo: pos, Hi: pos + 1, Msg: "unexpected character"}
 	}
 	return out, nil
 }
@@ -121,10 +138,10 @@ func (p *specParser) peek() string {
 
 func (p *specParser) errHere(msg string) *SpecErr {
 	if p.i >= len(p.toks) {
-		return &SpecErr{p.n, p.n, msg}
+		return &SpecErr{Lo: p.n, Hi: p.n, Msg: msg}
 	}
 	t := p.toks[p.i]
-	return &SpecErr{t.Pos, t.Pos + len(t.Text), msg}
+	return &SpecErr{Lo: t.Pos, Hi: t.Pos + len(t.Text), Msg: msg}
 }
 
 func startsAtom(t string) bool {
@@ -224,16 +241,58 @@ func (p *specParser) atom() *SpecErr {
 
 // SpecCheck returns nil if the spec is well-formed, otherwise the region where the error must be reported.
 func SpecCheck(s string, declared func(string) bool) ([]STok, *SpecErr) {
-	toks, e := SpecTokenize(s)
-	if e != nil {
-		return nil, e
-	}
+	toks, lexErr := SpecTokenize(s)
 	p := &specParser{toks: toks, n: len(s), declared: declared}
+	var synErr *SpecErr
 	if e := p.seq(false); e != nil {
-		return toks, e
+		synErr = e
+	} else if p.i < len(toks) {
+		synErr = p.errHere("trailing input")
 	}
-	if p.i < len(toks) {
-		return toks, p.errHere("trailing input")
+	if lexErr == nil && synErr == nil {
+		return toks, nil
 	}
-	return toks, nil
+	var first *SpecErr
+	var also [][2]int
+	if lexErr != nil {
+		first = lexErr
+		// a syntax error at a real token lexed before the lexical error is an offending token too
+		// (one that is only due to the token list being cut short is not)
+		if synErr != nil && synErr.Lo < len(s) && synErr.Lo < lexErr.Lo {
+			also = append(also, [2]int{synErr.Lo, synErr.Hi})
+		}
+	} else {
+		first = synErr
+	}
+	// tokens that are offending whatever precedes them
+	dd := false
+	for _, tk := range toks {
+		bad := false
+		switch tk.Typ {
+		case "Arg":
+			bad = !declared(tk.Text)
+		case "Short", "Long":
+			bad = dd || !declared(tk.Text)
+		case "Options":
+			bad = dd
+		case "Seq":
+			bad = dd
+			for _, c := range tk.Text[1:] {
+				if !declared("-" + string(c)) {
+					bad = true
+				}
+			}
+		case "DD":
+			dd = true
+		}
+		if bad {
+			also = append(also, [2]int{tk.Pos, tk.Pos + len(tk.Text)})
+		}
+	}
+	e := *first
+	e.Also = also
+	if lexErr != nil {
+		return nil, &e
+	}
+	return toks, &e
 }
